@@ -122,7 +122,10 @@ namespace detail
 			if(Source >= genType(0))
 				return Source - std::fmod(Source, Multiple);
 			else
-				return Source - std::fmod(Source, Multiple) - Multiple;
+			{
+				genType const Rem = std::fmod(Source, Multiple);
+				return Rem < genType(0) ? Source - Rem - Multiple : Source;
+			}
 		}
 	};
 
